@@ -65,112 +65,125 @@ def cancelReply : Str := lit "reload cancel\n\n\n***\n*** --- SHUTDOWN ABORTED -
 def writeReply : Str :=
   lit "write memory\nBuilding configuration...\n  Compressed configuration from 106098 bytes to 30504 bytes[OK]\n" ++ prompt
 
-theorem std_conf : stdReply confCmd = some [confReply] := by decide
-theorem std_cancel : stdReply cancelCmd = some [cancelReply] := by decide
-theorem std_write : stdReply writeCmd = some [writeReply] := by decide
+theorem std_conf (na : Bool) : stdReplyV na confCmd = some [confReply] := by cases na <;> decide
+theorem std_cancel (na : Bool) : stdReplyV na cancelCmd = some [cancelReply] := by cases na <;> decide
+theorem std_write (na : Bool) : stdReplyV na writeCmd = some [writeReply] := by cases na <;> decide
 
-theorem prep_plain_facts : ∀ l ∈ prepCmds, l = confCmd ∨
-    (stdReply l = none ∧ isChange l = false ∧
+theorem prep_plain_facts (na : Bool) : ∀ l ∈ prepCmds, l = confCmd ∨
+    (stdReplyV na l = none ∧ isChange l = false ∧
      promptFind (l ++ ['\n'] ++ prompt) = some (l.length, (l ++ ['\n'] ++ prompt).length)) := by
-  decide +kernel
+  cases na <;> decide +kernel
 
 /-- the seven preparation commands -/
-theorem prepare_sim (st : St SimSt) (hp : st.pend = []) (hparts : st.dev.parts = []) :
-    prepareDevice (simDevice []) st = (.ok (), { st with pend := [], trace := st.trace ++ prepCmds }) := by
+theorem prepare_sim (na : Bool) (st : St SimSt) (hp : st.pend = []) (hparts : st.dev.parts = []) :
+    prepareDevice (simDevice [] na) st = (.ok (), { st with pend := [], trace := st.trace ++ prepCmds }) := by
   unfold prepareDevice
-  refine forEach_sendCmd_eval (simDevice []) prepCmds st (fun d => d.parts = []) hparts hp ?_
+  refine forEach_sendCmd_eval (simDevice [] na) prepCmds st (fun d => d.parts = []) hparts hp ?_
   intro l hl
   have hsplit : splitOnNL l = [l] := (by decide : ∀ c ∈ prepCmds, splitOnNL c = [c]) l hl
-  rcases prep_plain_facts l hl with hc | ⟨hs, hch, hpf⟩
+  rcases prep_plain_facts na l hl with hc | ⟨hs, hch, hpf⟩
   · subst hc
     refine ⟨confReply, confReply.length - 8, ?_, by decide +kernel⟩
     intro d hd
-    have := simStep_std d confCmd _ [] hd std_conf hsplit
+    have := simStep_std na d confCmd _ [] hd (std_conf na) hsplit
     rw [this, simDev_parts_nil d hd]
-  · exact ⟨l ++ ['\n'] ++ prompt, l.length, fun d hd => simStep_plain d l hd hs hch hsplit, hpf⟩
+  · exact ⟨l ++ ['\n'] ++ prompt, l.length, fun d hd => simStep_plain na d l hd hs hch hsplit, hpf⟩
 
-theorem schedule_sim (st : St SimSt) (hp : st.pend = []) (hparts : st.dev.parts = []) :
-    scheduleReload (simDevice []) st =
-      (.ok (), { st with pend := [], reloadActive := true,
-                         trace := st.trace ++ [reloadCmd, lit "n", []] }) := by
+/-- the lines of the schedule exchange in the two dialogue variants -/
+def schedLines (na : Bool) : List Str := if na then [reloadCmd, []] else [reloadCmd, lit "n", []]
+
+theorem schedule_sim (na : Bool) (st : St SimSt) (hp : st.pend = []) (hparts : st.dev.parts = []) :
+    scheduleReload (simDevice [] na) st =
+      (.ok (), { st with pend := [], reloadActive := true, trace := st.trace ++ schedLines na }) := by
   have hs0 : splitOnNL reloadCmd = [reloadCmd] := by decide
   have hsn : splitOnNL (lit "n") = [lit "n"] := by decide
   have hse : splitOnNL ([] : Str) = [[]] := by decide
-  have hstd : stdReply reloadCmd = some
-      [(lit "reload in 2\n\nSystem configuration has been modified. Save? [yes/no]: "),
-       lit "Reload reason: Reload Command\nProceed with reload? [confirm]", prompt] := by decide
-  have := sendReloadCmd_eval (simDevice []) st false _ _ _ _ _ _ 0 hp
-    (simStep_std st.dev reloadCmd _ _ hparts hstd hs0) (by decide +kernel) (by decide +kernel)
-    (simStep_part _ (lit "n") _ _ rfl hsn) (by decide +kernel)
-    (simStep_part _ [] _ _ rfl hse) (by decide +kernel)
-  unfold scheduleReload
+  cases na with
+  | false =>
+    have hstd : stdReplyV false reloadCmd = some
+        [(lit "reload in 2\n\nSystem configuration has been modified. Save? [yes/no]: "),
+         lit "Reload reason: Reload Command\nProceed with reload? [confirm]", prompt] := by decide
+    have := sendReloadCmd_eval (simDevice [] false) st false _ _ _ _ _ _ 0 hp
+      (simStep_std false st.dev reloadCmd _ _ hparts hstd hs0) (by decide +kernel) (by decide +kernel)
+      (simStep_part false _ (lit "n") _ _ rfl hsn) (by decide +kernel)
+      (simStep_part false _ [] _ _ rfl hse) (by decide +kernel)
+    unfold scheduleReload
+    rw [this, simDev_parts_nil st.dev hparts]
+    rfl
+  | true =>
+    have hstd : stdReplyV true reloadCmd = some
+        [(lit "reload in 2\nProceed with reload? [confirm]"), prompt] := by decide
+    have := sendReloadCmd_eval_noask (simDevice [] true) st false _ _ _ _ 0 hp
+      (simStep_std true st.dev reloadCmd _ _ hparts hstd hs0) (by decide +kernel) (by decide +kernel)
+      (simStep_part true _ [] _ _ rfl hse) (by decide +kernel)
+    unfold scheduleReload
+    rw [this, simDev_parts_nil st.dev hparts]
+    rfl
+
+theorem conf_sim (na : Bool) (st : St SimSt) (hp : st.pend = []) (hparts : st.dev.parts = []) :
+    sendCmd (simDevice [] na) confCmd st = (.ok (), { st with pend := [], trace := st.trace ++ [confCmd] }) := by
+  have := sendCmd_eval (simDevice [] na) st confCmd confReply _ (confReply.length - 8)
+    (simStep_std na st.dev confCmd _ [] hparts (std_conf na) (by decide)) hp (by decide +kernel)
   rw [this, simDev_parts_nil st.dev hparts]
-  rfl
 
-theorem conf_sim (st : St SimSt) (hp : st.pend = []) (hparts : st.dev.parts = []) :
-    sendCmd (simDevice []) confCmd st = (.ok (), { st with pend := [], trace := st.trace ++ [confCmd] }) := by
-  have := sendCmd_eval (simDevice []) st confCmd confReply _ (confReply.length - 8)
-    (simStep_std st.dev confCmd _ [] hparts std_conf (by decide)) hp (by decide +kernel)
-  rw [this, simDev_parts_nil st.dev hparts]
+theorem end_sim (na : Bool) (st : St SimSt) (hp : st.pend = []) (hparts : st.dev.parts = []) :
+    sendCmd (simDevice [] na) endCmd st = (.ok (), { st with pend := [], trace := st.trace ++ [endCmd] }) := by
+  exact sendCmd_eval (simDevice [] na) st endCmd (endCmd ++ ['\n'] ++ prompt) _ endCmd.length
+    (simStep_plain na st.dev endCmd hparts (by cases na <;> decide) (by decide) (by decide)) hp (by decide +kernel)
 
-theorem end_sim (st : St SimSt) (hp : st.pend = []) (hparts : st.dev.parts = []) :
-    sendCmd (simDevice []) endCmd st = (.ok (), { st with pend := [], trace := st.trace ++ [endCmd] }) := by
-  exact sendCmd_eval (simDevice []) st endCmd (endCmd ++ ['\n'] ++ prompt) _ endCmd.length
-    (simStep_plain st.dev endCmd hparts (by decide) (by decide) (by decide)) hp (by decide +kernel)
-
-theorem cancel_sim (st : St SimSt) (hp : st.pend = []) (hparts : st.dev.parts = []) :
-    cancelReload (simDevice []) st =
+theorem cancel_sim (na : Bool) (st : St SimSt) (hp : st.pend = []) (hparts : st.dev.parts = []) :
+    cancelReload (simDevice [] na) st =
       (.ok (), { st with pend := [], reloadActive := false, trace := st.trace ++ [cancelCmd, []] }) := by
   have hse : splitOnNL ([] : Str) = [[]] := by decide
-  have h1 := simStep_std st.dev cancelCmd cancelReply [] hparts std_cancel (by decide)
+  have h1 := simStep_std na st.dev cancelCmd cancelReply [] hparts (std_cancel na) (by decide)
   rw [simDev_parts_nil st.dev hparts] at h1
-  have := cancelReload_eval (simDevice []) st cancelReply ([] ++ ['\n'] ++ prompt) _ _ 48 0 hp h1
+  have := cancelReload_eval (simDevice [] na) st cancelReply ([] ++ ['\n'] ++ prompt) _ _ 48 0 hp h1
     (by decide +kernel) (by decide +kernel) (by decide +kernel)
-    (simStep_plain st.dev [] hparts (by decide) (by decide) hse) (by decide +kernel)
+    (simStep_plain na st.dev [] hparts (by cases na <;> decide) (by decide) hse) (by decide +kernel)
   rw [this]
 
-theorem write_sim (st : St SimSt) (hp : st.pend = []) (hparts : st.dev.parts = []) (n : Nat) :
-    writeMem (simDevice []) n st = (.ok (), { st with pend := [], trace := st.trace ++ [writeCmd] }) := by
-  have h1 := simStep_std st.dev writeCmd writeReply [] hparts std_write (by decide)
+theorem write_sim (na : Bool) (st : St SimSt) (hp : st.pend = []) (hparts : st.dev.parts = []) (n : Nat) :
+    writeMem (simDevice [] na) n st = (.ok (), { st with pend := [], trace := st.trace ++ [writeCmd] }) := by
+  have h1 := simStep_std na st.dev writeCmd writeReply [] hparts (std_write na) (by decide)
   rw [simDev_parts_nil st.dev hparts] at h1
-  rw [writeMem_eval (simDevice []) st writeReply _ n hp h1 (by decide +kernel) (by decide +kernel) (by decide +kernel)]
+  rw [writeMem_eval (simDevice [] na) st writeReply _ n hp h1 (by decide +kernel) (by decide +kernel) (by decide +kernel)]
 
 
 /-- the transcript of a successful run -/
-def fullTrace (gs : List Chg) : List Str :=
-  prepCmds ++ [reloadCmd, lit "n", []] ++ [confCmd] ++ specTrace gs ++ [endCmd] ++ [cancelCmd, []] ++ [writeCmd]
+def fullTrace (na : Bool) (gs : List Chg) : List Str :=
+  prepCmds ++ schedLines na ++ [confCmd] ++ specTrace na gs ++ [endCmd] ++ [cancelCmd, []] ++ [writeCmd]
 
 /-- **the whole of `ApplyCommands` against the scripted device**, for a script whose outputs are
 all accepted -/
-theorem apply_sim_ok (gs : List Chg) (q : List Behav) (st0 : St SimSt)
+theorem apply_sim_ok (na : Bool) (gs : List Chg) (q : List Behav) (st0 : St SimSt)
     (hp : st0.pend = []) (ht : st0.trace = []) (hparts : st0.dev.parts = [])
     (hq : st0.dev.queue = gs.flatMap Chg.behavs ++ q) (hc : ∀ g ∈ gs, g.Clean ∧ g.NoProbeFirst)
     (hok : specOk gs = true) :
-    let o := applyCommands (simDevice []) true (gs.map Chg.cmd) st0
-    o.1 = .ok () ∧ o.2.trace = fullTrace gs ∧ o.2.warns = st0.warns ++ specWarns gs ∧
+    let o := applyCommands (simDevice [] na) true (gs.map Chg.cmd) st0
+    o.1 = .ok () ∧ o.2.trace = fullTrace na gs ∧ o.2.warns = st0.warns ++ specWarns gs ∧
     o.2.reloadActive = false ∧ o.2.pend = [] := by
   intro o
-  let D := simDevice []
+  let D := simDevice [] na
   let s1 : St SimSt := { st0 with pend := [], trace := st0.trace ++ prepCmds }
-  have e1 : prepareDevice D st0 = (.ok (), s1) := prepare_sim st0 hp hparts
-  let s2 : St SimSt := { s1 with pend := [], reloadActive := true, trace := s1.trace ++ [reloadCmd, lit "n", []] }
-  have e2 : scheduleReload D s1 = (.ok (), s2) := schedule_sim s1 rfl hparts
+  have e1 : prepareDevice D st0 = (.ok (), s1) := prepare_sim na st0 hp hparts
+  let s2 : St SimSt := { s1 with pend := [], reloadActive := true, trace := s1.trace ++ schedLines na }
+  have e2 : scheduleReload D s1 = (.ok (), s2) := schedule_sim na s1 rfl hparts
   let s3 : St SimSt := { s2 with pend := [], trace := s2.trace ++ [confCmd] }
-  have e3 : sendCmd D confCmd s2 = (.ok (), s3) := conf_sim s2 rfl hparts
+  have e3 : sendCmd D confCmd s2 = (.ok (), s3) := conf_sim na s2 rfl hparts
   have hr3 : Ready s3 := ⟨rfl, rfl, hparts⟩
-  have hl := loop_spec gs s3 q hr3 hq hc
+  have hl := loop_spec na gs s3 q hr3 hq hc
   obtain ⟨hl1, hl2, hl3, _⟩ := hl
   obtain ⟨hlok, hlr, hlq⟩ := hl3 hok
   let s4 := (changeLoop D true (gs.map Chg.cmd) s3).2
   have e4 : sendCmd D endCmd s4 = (.ok (), { s4 with pend := [], trace := s4.trace ++ [endCmd] }) :=
-    end_sim s4 hlr.pend hlr.parts
+    end_sim na s4 hlr.pend hlr.parts
   let s5 : St SimSt := { s4 with pend := [], trace := s4.trace ++ [endCmd] }
   have e5 : cancelReload D s5 =
       (.ok (), { s5 with pend := [], reloadActive := false, trace := s5.trace ++ [cancelCmd, []] }) :=
-    cancel_sim s5 rfl hlr.parts
+    cancel_sim na s5 rfl hlr.parts
   let s6 : St SimSt := { s5 with pend := [], reloadActive := false, trace := s5.trace ++ [cancelCmd, []] }
   have e6 : writeMem D 2 s6 = (.ok (), { s6 with pend := [], trace := s6.trace ++ [writeCmd] }) :=
-    write_sim s6 rfl hlr.parts 2
+    write_sim na s6 rfl hlr.parts 2
   -- assemble
   have hbody : guardedBody D true (gs.map Chg.cmd) s2 = (.ok (), s5) := by
     unfold guardedBody
@@ -188,7 +201,7 @@ theorem apply_sim_ok (gs : List Chg) (q : List Behav) (st0 : St SimSt)
     rw [bindM_snd_of_ok _ _ _ () (by rw [e1]), e1, bindM_snd_of_ok _ _ _ () (by rw [hguard]), hguard, e6]
   rw [ho]
   refine ⟨rfl, ?_, ?_, rfl, rfl⟩
-  · show s4.trace ++ [endCmd] ++ [cancelCmd, []] ++ [writeCmd] = fullTrace gs
+  · show s4.trace ++ [endCmd] ++ [cancelCmd, []] ++ [writeCmd] = fullTrace na gs
     show (changeLoop D true (gs.map Chg.cmd) s3).2.trace ++ [endCmd] ++ [cancelCmd, []] ++ [writeCmd] = _
     rw [hl1]
     simp [s3, s2, s1, ht, fullTrace]
